@@ -36,6 +36,13 @@ func __samefn(a, b any) bool                             { return true }
 func __entry[T any](x T) T                               { return x }
 func __rangeindex() int                                  { return 0 }
 func __lemma(f func())                                   {}
+func __disjoint(a, b any) bool                           { return true }
+func __assumes(label string, f func() bool)              {}
+func __heapof(x any) any                                 { return x }
+func __ghost(name string) int                            { return 0 }
+func __ghostset(name string, f func() int)               {}
+func __lastsent[T any](ch chan T) (r T)                  { return }
+func __sentcount[T any](ch chan T) int                   { return 0 }
 `
 }
 
@@ -167,17 +174,28 @@ func buildOverlay(pkgDir string) (*OverlayResult, error) {
 				}
 			}
 			for _, r := range c.Requires {
-				if txt, ok := substClause(r.Text, lastErr, res0); ok {
+				if txt, ok := substAll(r.Text, fd, lastErr, res0); ok {
 					fmt.Fprintf(&sb, " __requires(%s, func() bool { return %s });", quoteLabel(r.Label), specToGo(txt, resultName))
 				}
 			}
+			for _, r := range c.Assumes {
+				if txt, ok := substAll(r.Text, fd, lastErr, res0); ok {
+					fmt.Fprintf(&sb, " __assumes(%s, func() bool { return %s });", quoteLabel(r.Label), specToGo(txt, resultName))
+				}
+			}
 			for _, r := range c.Ensures {
-				if txt, ok := substClause(r.Text, lastErr, res0); ok {
+				if txt, ok := substAll(r.Text, fd, lastErr, res0); ok {
 					fmt.Fprintf(&sb, " __ensures(%s, func() bool { return %s });", quoteLabel(r.Label), specToGo(txt, resultName))
 				}
 			}
+			for _, g := range c.GhostSets {
+				if k := strings.Index(g, "="); k > 0 {
+					name := strings.TrimSpace(g[:k])
+					fmt.Fprintf(&sb, " __ghostset(%q, func() int { return int(%s) });", name, specToGo(rewriteGhost(g[k+1:]), resultName))
+				}
+			}
 			for _, l := range c.Lemmas {
-				if txt, ok := substClause(l, lastErr, res0); ok {
+				if txt, ok := substAll(l, fd, lastErr, res0); ok {
 					fmt.Fprintf(&sb, " __lemma(func() { %s });", specToGo(txt, resultName))
 				}
 			}
@@ -186,6 +204,9 @@ func buildOverlay(pkgDir string) (*OverlayResult, error) {
 				for _, m := range c.Modifies {
 					if strings.HasPrefix(m, "elems(") {
 						locs = append(locs, "__"+m)
+					} else if strings.HasPrefix(m, "heap(") {
+						// heap(T): every cell of type T
+						locs = append(locs, "__heapof((*"+strings.TrimSuffix(strings.TrimPrefix(m, "heap("), ")")+")(nil))")
 					} else {
 						locs = append(locs, "&("+m+")")
 					}
@@ -351,6 +372,36 @@ func substLastErr(text, name string) (string, bool) {
 	return substClause(text, name, "")
 }
 
+// recvIdent: the receiver's identifier ("" when unnamed or blank).
+func recvIdent(fd *ast.FuncDecl) string {
+	if fd.Recv == nil || len(fd.Recv.List) == 0 || len(fd.Recv.List[0].Names) == 0 {
+		return ""
+	}
+	n := fd.Recv.List[0].Names[0].Name
+	if n == "_" {
+		return ""
+	}
+	return n
+}
+
+var selfRe = regexp.MustCompile(`\bself\b`)
+
+// substSelf renames "self" in template clauses to the method's own receiver
+// name; a clause about self cannot be stated for an unnamed receiver.
+func substSelf(text string, fd *ast.FuncDecl, fromTemplate bool) (string, bool) {
+	if !selfRe.MatchString(text) || fd.Recv == nil {
+		return text, true
+	}
+	n := recvIdent(fd)
+	if n == "" {
+		return "", false
+	}
+	if n == "self" {
+		return text, true
+	}
+	return selfRe.ReplaceAllString(text, n), true
+}
+
 func substClause(text, name, res0 string) (string, bool) {
 	text = strings.TrimSpace(text)
 	if strings.HasPrefix(text, "[") {
@@ -383,3 +434,16 @@ func firstResultType(fd *ast.FuncDecl, src []byte, off func(token.Pos) int) stri
 	f := fd.Type.Results.List[0]
 	return string(src[off(f.Type.Pos()):off(f.Type.End())])
 }
+
+func substAll(text string, fd *ast.FuncDecl, lastErr, res0 string) (string, bool) {
+	t, ok := substClause(text, lastErr, res0)
+	if !ok {
+		return "", false
+	}
+	return substSelf(t, fd, true)
+}
+
+var ghostRe = regexp.MustCompile(`\bghost\((\w+)\)`)
+
+// rewriteGhost turns ghost(name) into ghost("name") so that it is a Go call.
+func rewriteGhost(s string) string { return ghostRe.ReplaceAllString(s, `ghost("$1")`) }
